@@ -4,7 +4,9 @@ listed known finding of <ID> that is no longer reproduced into the `fixed` list 
 import json, subprocess, sys, os
 root = os.path.dirname(os.path.dirname(os.path.abspath(__file__)))
 pid, commit, what = sys.argv[1], sys.argv[2], sys.argv[3]
-out = subprocess.run([os.path.join(root, "check"), pid], cwd=root, capture_output=True, text=True)
+# MOVE_TIER=thorough when the property has signatures that only the thorough tier reproduces (a
+# quick run would report those as "not reproduced" although nothing repaired them)
+out = subprocess.run([os.path.join(root, "check"), pid, "--tier", os.environ.get("MOVE_TIER", "quick")], cwd=root, capture_output=True, text=True)
 gone = [l.split("not reproduced in this run: ", 1)[1].strip() for l in out.stderr.splitlines() if "not reproduced in this run: " in l]
 p = os.path.join(root, "findings", "known_findings.json")
 k = json.load(open(p))
